@@ -522,18 +522,22 @@ def run():
         trees, reqs, exprs, keys = [], [], [], []
         for _ in range(ck.n(70, 500)):
             files = ["".join(rng.choice(lc_alpha) for _ in range(rng.randint(0, 9))) for _ in range(rng.randint(1, 3))]
+            # paths: mostly distinct, sometimes the same path twice (SourceTree.sources is keyed by path: the later content wins)
+            pkeys = [rng.choice([0, 1]) for _ in files] if (len(files) > 1 and rng.random() < 0.5) else list(range(len(files)))
             spans = []
             for _ in range(8):
                 fid = rng.choice([0, 1, 1, 1, 2, 2, 3, 4])
-                ln = len(files[fid - 1]) if 1 <= fid <= len(files) else 6
+                ln = max(len(f) for f in files) if 1 <= fid <= len(files) else 6
                 a, b = rng.randint(0, ln + 2), rng.randint(0, ln + 2)
                 if a > b and rng.random() < 0.7:
                     a, b = b, a
                 spans.append([a, b, fid])
-            reqs.append({"files": [["f%d.prql" % i, f] for i, f in enumerate(files)], "spans": spans})
+            reqs.append({"files": [["f%d.prql" % k, f] for k, f in zip(pkeys, files)], "spans": spans})
+            ck.stat("corr-composed-any", "paths:" + ("duplicate" if len(set(pkeys)) < len(pkeys) else "distinct"))
             for sp in spans:
-                exprs.append("flat_composed (composed_one (source_tree [%s]) (Some (Span %d %d %d)))" % ("; ".join(coq_codes(f) for f in files), sp[0], sp[1], sp[2]))
-                keys.append((files, sp))
+                exprs.append("flat_composed (composed_one (tree_of_files [%s]) (Some (Span %d %d %d)))"
+                             % ("; ".join("(%d%%N, %s)" % (k, coq_codes(f)) for k, f in zip(pkeys, files)), sp[0], sp[1], sp[2]))
+                keys.append(([[k, f] for k, f in zip(pkeys, files)], sp))
         real = [x for r in harness("c13compose", reqs) for x in (r.get("ok") or [])]
         try:
             vals = coq_eval(header, exprs)
@@ -556,6 +560,33 @@ def run():
             if mv != iv:
                 ck.violation("Model/Span.v composed_one differs from ErrorMessages::composed for span %s of files %r: model %s, impl %s" % (sp, files, mv, iv),
                              {"files": files, "span": sp, "model": str(mv), "impl": str(iv), "kind": "correspondence"})
+        # 3a'' the `(index + 1) as u16` wrap: 65537 files; file 65535 gets id 0 (the id of std.prql), file 65536 takes id 1 from file 0
+        big = [["g%d.prql" % i, ("a" if i == 0 else "bb" if i == 65536 else "ccc" if i == 65535 else "")] for i in range(65537)]
+        wspans = [[0, 1, 1], [2, 2, 1], [0, 3, 0], [0, 1, 2], [0, 0, 65535]]
+        wr = (harness("c13compose", [{"files": big, "spans": wspans}], shards=1)[0].get("ok") or [])
+        whdr = header + ("Fixpoint mk_files (fuel : nat) (k : N) : list (N * source) := match fuel with O => [] | S f => "
+                         "(k, if N.eqb k 0 then [97%N] else if N.eqb k 65536 then [98%N; 98%N] else if N.eqb k 65535 then [99%N; 99%N; 99%N] else []) :: mk_files f (k + 1)%N end.\n"
+                         "Definition big_files := mk_files (N.to_nat 65537) 0%N.\n")
+        try:
+            wv = coq_eval(whdr, ["map (fun id => match tree_source big_files id with Some s => Some (length s) | None => None end) [1%N; 0%N; 2%N; 65535%N]"])[0]
+        except RuntimeError as ex:
+            wv = None
+            ck.coverage["model_eval_error"] = str(ex)[-400:]
+        if wv is not None and len(wr) == len(wspans):
+            mlen = {1: wv[0], 0: wv[1], 2: wv[2], 65535: wv[3]}
+            for sp, r in zip(wspans, wr):
+                ck.count("corr-tree-wrap", json.dumps(sp))
+                ml = mlen[sp[2]]
+                ml = None if ml == "None" else ml[1]
+                # model: the span is located iff the id names a file and both ends are within its length
+                want_located = ml is not None and sp[0] <= sp[1] <= ml
+                got_located = "panic" not in r and r.get("location") is not None
+                got_removed = "panic" not in r and r.get("span") is None
+                if want_located != got_located or (ml is None) != got_removed:
+                    ck.violation("SourceTree with 65537 files: span %s: the model says id %d names a text of %s characters, the implementation answers %s" % (sp, sp[2], ml, str(r)[:160]),
+                                 {"span": sp, "model_len": ml, "impl": str(r)[:300], "kind": "correspondence"})
+        else:
+            ck.violation("SourceTree wrap case could not be evaluated (%s answers, model %s)" % (len(wr), wv), {"kind": "harness"}, no_input=True)
         # 3b convert_lexer_error on sources whose first lexer error has a byte span known by construction
         lexc = [c for c in cases if tpls[c["ti"]]["cls"] == "lexical" and not c["lex_ok"] and "err" in c["lex"] and len(c["src"]) < 300]
         lexc = lexc[: ck.n(150, 1200)]
